@@ -75,13 +75,15 @@ func init() {
 			for b := 18; b < fs; b++ {
 				pos = append(pos, b)
 			}
-			// the control word is covered by the checksum too: one flipped bit of it (reserved bits, version, the checksum
-			// flag itself) never yields an accepted frame
+			// the control word is covered by the checksum too: one flipped bit of it (reserved bits, version) never yields
+			// an accepted frame. The checksum flag itself is different: with it cleared the frame no longer announces a
+			// checksum, which C04 does not speak about (and when the frame without its trailer fills whole blocks, the first
+			// blocks are a complete frame of their own) - that flip is compared with the model only.
 			for b := 2; b < 4; b++ {
 				for k := 0; k < 8; k++ {
 					p := append([]byte{}, base...)
 					p[b] ^= 1 << uint(k)
-					bitsCase(cw, p, fmt.Sprintf("flip1 control byte=%d bit=%d fs=%d", b, k, fs), true)
+					bitsCase(cw, p, fmt.Sprintf("flip1 control byte=%d bit=%d fs=%d", b, k, fs), !(b == 3 && k == 4))
 				}
 			}
 			// every single-bit flip
